@@ -76,7 +76,11 @@ def _chunk(args):
           "shapes": set(), "nt_shapes": set(), "cells": set(), "violations": [], "samples": [],
           "digest": hashlib.sha256(), "ticks": 0, "skipped_steps": 0, "toy_skipped": 0,
           "errors": [], "steps": 0, "perrun": []}
+    per_run_cap = int(os.environ.get("VERIF_RUN_TIMEOUT", "300"))
     for idx in range(lo, hi):
+        # a hang (in the library under a mutant, or in the harness) kills this worker with a
+        # traceback; the batch then ends as HARNESS-ERROR (exit 2), never as success
+        faulthandler.dump_traceback_later(per_run_cap, exit=True)
         try:
             scn = generate(pm, pid, seed, idx, tier)
             try:
@@ -123,6 +127,7 @@ def _chunk(args):
                 st["violations"].append({"scenario": scn, "sig": f["sig"], "msg": f["msg"]})
             st.setdefault("nviol", 0)
             st["nviol"] = st.get("nviol", 0) + 1
+    faulthandler.cancel_dump_traceback_later()
     st["digest"] = st["digest"].hexdigest()
     return st
 
